@@ -669,7 +669,7 @@ pub fn main(args: &[String]) -> i32 {
                 writeln!(out, "{}", abs_line(&o, &w.storage, &net)).unwrap();
                 out.flush().unwrap();
             }
-            "applypatch" | "sha" => {}
+            "applypatch" | "sha" | "wfm" | "sdiff" | "varint" => {}
             other => panic!("bad line {other}"),
         }
     }
